@@ -334,3 +334,45 @@ Section Tree.
 End Tree.
 Arguments tree : clear implicits.
 Arguments nmodule : clear implicits.
+
+(* ------------------------------------------------------------------ *)
+(** ** the checkpoint directory of the checkpointing logger (logging/checkpointer.py)
+
+    [record_epoch] counts an epoch for the key on every call and, when the
+    frequency rule says so, writes the module's state under a directory named after
+    (step, epoch) and appends that name to [checkpoint_path[key]].  A write to an
+    existing name replaces what was stored there.  [ck_name] is the naming rule:
+    the repository's rule is [name_step_epoch]; [name_step_only] is the variant
+    that drops the epoch counter. *)
+Definition ck_name := (Z * Z)%type.
+Definition name_eqb (a b : ck_name) : bool := (Z.eqb (fst a) (fst b) && Z.eqb (snd a) (snd b))%bool.
+Definition name_step_epoch (step epoch : Z) : ck_name := (step, epoch).
+Definition name_step_only (step epoch : Z) : ck_name := (step, 0%Z).
+
+Fixpoint ck_lookup {V : Type} (d : list (ck_name * V)) (k : ck_name) : option V :=
+  match d with
+  | [] => None
+  | (k', v) :: r => if name_eqb k' k then Some v else ck_lookup r k
+  end.
+
+Record cklog (V : Type) := { ck_dir : list (ck_name * V); ck_epoch : Z; ck_paths : list ck_name }.
+Arguments ck_dir {V}. Arguments ck_epoch {V}. Arguments ck_paths {V}.
+Definition ck_init {V : Type} : cklog V := {| ck_dir := []; ck_epoch := 0%Z; ck_paths := [] |}.
+
+(** one [record_epoch(key, value, step)] call; [save] is the outcome of the frequency rule *)
+Definition ck_record {V : Type} (naming : Z -> Z -> ck_name) (l : cklog V) (c : Z * bool * V) : cklog V :=
+  let '(step, save, v) := c in
+  let e := (ck_epoch l + 1)%Z in
+  if save then {| ck_dir := (naming step e, v) :: ck_dir l; ck_epoch := e; ck_paths := ck_paths l ++ [naming step e] |}
+  else {| ck_dir := ck_dir l; ck_epoch := e; ck_paths := ck_paths l |}.
+
+Definition ck_run {V : Type} (naming : Z -> Z -> ck_name) (h : list (Z * bool * V)) : cklog V :=
+  fold_left (ck_record naming) h ck_init.
+
+(** the values written, in the order of [ck_paths] *)
+Definition ck_saved {V : Type} (h : list (Z * bool * V)) : list V :=
+  map snd (filter (fun c => snd (fst c)) h).
+
+(** what every listed path restores to after the whole history *)
+Definition ck_restore_all {V : Type} (naming : Z -> Z -> ck_name) (h : list (Z * bool * V)) : list (option V) :=
+  let l := ck_run naming h in map (ck_lookup (ck_dir l)) (ck_paths l).
